@@ -10,10 +10,10 @@ import numpy as np
 from . import canon as C
 from .simfs import SimFS, Policy
 
-NAMES = ["A", "a", "B", "", "A:1", "A:2", "UNKNOWN", "7", " ", "b", "GR", "Gr"]
-NAMES_PLAIN = ["A", "a", "B", "", "UNKNOWN", "7", " ", "b", "GR", "Gr"]     # steer away from F-C13-1
-NAMES_FILE = ["A", "a", "B", "", "UNKNOWN", "X7", "b", "GR", "Gr", "DT"]
-PROBE_KEYS = NAMES + ["A:3", "B:1", "UNKNOWN:1", "unknown", "zz", "a:1", "gr"]
+NAMES = ["A", "a", "B", "", "A:1", "A:2", "UNKNOWN", "7", " ", "b", "GR", "Gr", "_ID"]
+NAMES_PLAIN = ["A", "a", "B", "", "UNKNOWN", "7", " ", "b", "GR", "Gr", "_ID"]     # steer away from F-C13-1
+NAMES_FILE = ["A", "a", "B", "", "UNKNOWN", "X7", "b", "GR", "Gr", "DT", "_ID"]
+PROBE_KEYS = NAMES + ["A:3", "B:1", "UNKNOWN:1", "unknown", "zz", "a:1", "gr", "_id", "_ID:1", "_x", "__len__x"]
 UNITS = ["", "M", "US/F", "K/M3"]
 VALUES = ["", "x y", 1, "15_9", -7, 250]
 DESCRS = ["", "d one", "two three"]
@@ -94,6 +94,9 @@ class SectionMachine(object):
 
     def real_items(self):
         return list(list.__iter__(self.s))
+
+    def snapshot(self):
+        return [(id(it), it.mnemonic, it.original_mnemonic, it.unit, repr(it.value), it.descr) for it in self.real_items()]
 
     def first(self, key):
         for it in self.real_items():
@@ -230,7 +233,11 @@ class SectionMachine(object):
             key = M[j]["item"].mnemonic
             tgt = self.first(key)
             it = self.new_item(op[2], step)
-            if op[3] if len(op) > 3 else False:
+            how = op[3] if len(op) > 3 else False
+            if how == "ix" and self.kind == "curves" and self.las is not None:
+                tgt = M[j]["item"]                 # LASFile.replace_curve_item addresses a position (either sign)
+                self.las.replace_curve_item(j if step % 2 else j - len(M), it)
+            elif how:
                 s.set_item(key, it)
             else:
                 s[key] = it
@@ -273,12 +280,18 @@ class SectionMachine(object):
             self.op_get_default_item(op[1], op[2], op[3])
         elif kind == "get":
             self.op_get(op[1], op[2])
-        elif kind == "probe":
-            self.op_probe(op[1])
-        elif kind == "probe_int":
-            self.op_probe_int(op[1])
-        elif kind == "probe_slice":
-            self.op_probe_slice(op[1], op[2], op[3])
+        elif kind in ("probe", "probe_int", "probe_slice"):
+            before = self.snapshot()
+            if kind == "probe":
+                self.op_probe(op[1])
+            elif kind == "probe_int":
+                self.op_probe_int(op[1])
+            else:
+                self.op_probe_slice(op[1], op[2], op[3])
+            after = self.snapshot()
+            if after != before and self.check15:
+                self.fail("C15.probe-changed-section", "reading %r changed the section: %r -> %r" % (
+                    op, [b[1] for b in before], [a[1] for a in after]))
         elif kind == "del_absent":
             self.op_del_absent(op[1])
         else:
@@ -510,7 +523,7 @@ def gen_ops(g, n, names, c15=False):
         elif r < 0.92:
             ops.append(["del_key", g.randrange(8)])
         else:
-            ops.append(["replace", g.randrange(8), g.choice(names), g.random() < 0.4])
+            ops.append(["replace", g.randrange(8), g.choice(names), g.choice([False, False, True, "ix"])])
             used.append(ops[-1][2])
     return ops
 
